@@ -3,9 +3,9 @@
 package zzverif
 
 import (
-	"math"
 	"encoding/json"
 	"fmt"
+	"math"
 	"reflect"
 	"sort"
 	"strings"
